@@ -689,8 +689,9 @@ theorem errlog_under_group_one_line (σ : Store) (h : TL.Handler) (level : Int) 
     | cons g gs => simp
   refine ⟨?_, logValueText_no_lf e.trace, joinLF_splitLF e.trace⟩
   rw [errlog_under_group_is_attribute σ h level now e _ hg]
-  have := format_flat σ h { level := level, ts := now, msg := e.msg,
-      attrs := .leaf stackKey (logValueText e.trace) :: kvs.map fun kv => Attr.leaf kv.1 kv.2 } groups
+  have := format_flat σ h
+    { level := level, ts := now, msg := e.msg,
+      attrs := .leaf stackKey (logValueText e.trace) :: kvs.map (fun kv => Attr.leaf kv.1 kv.2) } groups
     ((stackKey, logValueText e.trace) :: kvs) hv hne (by simp) (by simp)
   rw [this]
   simp [TL.header, List.append_assoc]
